@@ -208,8 +208,12 @@ def rule_marking(ctx: Ctx) -> None:
         else:
             rows.add("gt-only")
             d = dict((k, S(v)) for k, v in asg)
-            ctx.check(d.get("tp_list") in ("[0.0]*self.num_ground_truth", "[0]*self.num_ground_truth") and d.get("fp_list", "").startswith("np.arange(1,self.num_ground_truth+1") and rv == "(tp_list,fp_list)",
-                      "C04-marking", "Ap._calculate_tp_fp", "no-results:gt", f"without results but with ground truth the lists are tp={d.get('tp_list')}, fp={d.get('fp_list', '')[:50]}; expected all-zero TP and FP = 1..GT (precision 0, AP 0)", fi=fi)
+            # the two returned lists, whether they are named first or returned as expressions (e.g. from a helper that was inlined)
+            rt = p.retval
+            ctx.require(isinstance(rt, ast.Tuple) and len(rt.elts) == 2, f"Ap._calculate_tp_fp: the no-results branch returns `{rv[:60]}`, not a pair")
+            tpv, fpv = [d.get(strip_v(S(x)), strip_v(S(x))) for x in rt.elts]
+            ctx.check(tpv in ("[0.0]*self.num_ground_truth", "[0]*self.num_ground_truth") and fpv.startswith("np.arange(1,self.num_ground_truth+1"),
+                      "C04-marking", "Ap._calculate_tp_fp", "no-results:gt", f"without results but with ground truth the lists are tp={tpv[:50]}, fp={fpv[:50]}; expected all-zero TP and FP = 1..GT (precision 0, AP 0)", fi=fi)
     ctx.require(rows == {"results", "none", "gt-only"}, f"Ap._calculate_tp_fp: rows {sorted(rows)}")
     # cumulative sums, in that order, returned as (tp, fp)
     main = [p for p in paths if any(e.kind == "loop" for e in p.effects)]
@@ -230,9 +234,15 @@ def rule_formulas(ctx: Ctx) -> None:
     ctx.require(len(lps) == 1, "get_precision_recall_list: expected one loop")
     lp = lps[0]
     ivar = U(lp.node.target)
-    ctx.check(re.match(r"^range\(len\((precisions_list|self\.tp_list|recalls_list)\)\)$", S(lp.text)) is not None, "C04-formula", "get_precision_recall_list", "range",
-              f"the loop runs over `{S(lp.text)}` instead of every rank", fi=fi)
-    F = Formula(rename={f"self.tp_list[{ivar}]": "tp_i", ivar: "i", "self.num_ground_truth": "ngt"})
+    ren = {}
+    if S(lp.text) == "enumerate(self.tp_list)" and isinstance(lp.node.target, ast.Tuple) and len(lp.node.target.elts) == 2:
+        # the same walk over every rank, with the element named
+        ivar, ren = U(lp.node.target.elts[0]), {U(lp.node.target.elts[1]): "tp_i"}
+    else:
+        ctx.require(S(lp.text).startswith("range("), f"get_precision_recall_list: loop header `{S(lp.text)}` not recognised")
+        ctx.check(re.match(r"^range\(len\((precisions_list|self\.tp_list|recalls_list)\)\)$", S(lp.text)) is not None or S(lp.text) == "range(len(self.tp_list))", "C04-formula", "get_precision_recall_list", "range",
+                  f"the loop runs over `{S(lp.text)}` instead of every rank", fi=fi)
+    F = Formula(rename=dict({f"self.tp_list[{ivar}]": "tp_i", ivar: "i", "self.num_ground_truth": "ngt"}, **ren))
     for bp in lp.body:
         gt_pos = fact_where(bp, lambda k: k in ("cmp:0 < self.num_ground_truth", "cmp:1 <= self.num_ground_truth") or k == "truthy:self.num_ground_truth")
         if gt_pos is None:
@@ -269,9 +279,15 @@ def rule_formulas(ctx: Ctx) -> None:
         lp = lps[0]
         ivar = U(lp.node.target)
         env_call = "self.interpolate_precision_recall_list(precision_list,recall_list)"
-        ctx.check(S(lp.text) == f"range(len({env_call}[0])-1)", "C04-formula", "_calculate_ap", "range",
-                  f"the area loop runs over `{S(lp.text)[:100]}`; it must visit every pair of consecutive envelope points (range(len(envelope) - 1))", fi=fa)
-        F = Formula(rename={f"{env_call}[0][{ivar}]": "p_i", f"{env_call}[1][{ivar}]": "r_i", f"{env_call}[1][{ivar}+1]": "r_next"})
+        if S(lp.text) == f"zip({env_call}[0],{env_call}[1],{env_call}[1][1:])" and isinstance(lp.node.target, ast.Tuple) and len(lp.node.target.elts) == 3:
+            # consecutive envelope points paired by zip with the recalls shifted by one: the same len - 1 pairs
+            a, b, c = [U(x) for x in lp.node.target.elts]
+            F = Formula(rename={a: "p_i", b: "r_i", c: "r_next"})
+        else:
+            ctx.require(S(lp.text).startswith("range("), f"_calculate_ap: loop header `{S(lp.text)[:80]}` not recognised")
+            ctx.check(S(lp.text) == f"range(len({env_call}[0])-1)", "C04-formula", "_calculate_ap", "range",
+                      f"the area loop runs over `{S(lp.text)[:100]}`; it must visit every pair of consecutive envelope points (range(len(envelope) - 1))", fi=fa)
+            F = Formula(rename={f"{env_call}[0][{ivar}]": "p_i", f"{env_call}[1][{ivar}]": "r_i", f"{env_call}[1][{ivar}+1]": "r_next"})
         for bp in lp.body:
             aug = [e for e in bp.effects if e.kind == "aug" and strip_v(e.recv) == "ap"]
             ctx.require(len(aug) == 1 and aug[0].name == "Add", "_calculate_ap: the loop does not add one term to ap")
